@@ -10,7 +10,10 @@
 #define NSYM NI
 #endif
 static int drawn;
-static uint64_t weight(void) { int i = drawn++; if (i >= NI - NSYM) return ND_RANGE(1, 1000); return 13 + 10 * (uint64_t)i; }
+#ifndef SYMPOS
+#define SYMPOS (NI - NSYM)
+#endif
+static uint64_t weight(void) { int i = drawn++; if (i >= SYMPOS && i < SYMPOS + NSYM) return ND_RANGE(1, 1000); return 13 + 10 * (uint64_t)i; }   /* weights SYMPOS..SYMPOS+NSYM-1 (draw order) are symbolic */
 void harness(void) {
   void* a = w_fi_new(3, 3); void* b = w_fi_new(3, 3);
   uint64_t truth[NI + 2]; uint64_t total = 0;
@@ -29,6 +32,7 @@ void harness(void) {
     ASSERT(lb <= est && est <= ub, "estimate between the bounds");
     ASSERT(ub - lb == me, "upper - lower == reported maximum error");
   }
+#ifdef RESULTSETS   /* sorting a result vector of symbolic length is expensive: separate queries */
   /* result sets */
   uint64_t thr = ND_RANGE(0, 3000); uint64_t ri[10], re[10], rl[10], ru[10];
   int32_t n = w_fi_frequent(a, 1, thr, ri, re, rl, ru, 10);
@@ -37,6 +41,7 @@ void harness(void) {
   for (int j = 1; j < 10; j++) if (j < n) ASSERT(re[j - 1] >= re[j], "result in descending estimate order");
   int32_t m = w_fi_frequent(a, 0, thr, ri, re, rl, ru, 10);
   for (int j = 0; j < 10; j++) if (j < m) ASSERT(ri[j] >= 1 && ri[j] <= NI && truth[ri[j]] > thr, "NO_FALSE_POSITIVES returns only items whose true weight exceeds the threshold");
+#endif
   w_fi_delete(a); w_fi_delete(b);
   WITNESS();
 }
